@@ -21,6 +21,8 @@ type Canon struct {
 	expand map[types.Object]ast.Expr
 	tuple  map[types.Object]tupleDef
 	names  map[types.Object]string // distinct locals sharing a name: err, err_2, err_3 (declaration order)
+	alias  map[types.Object]string // local -> the name the rule tables know it by (a renamed local recognised by its signature)
+	base   map[types.Object]string // local -> alias or source name, without scope suffix
 	depth  int
 }
 
@@ -32,7 +34,18 @@ type tupleDef struct {
 // NewCanon analyses one function (declaration or literal) for roles and single-assignment locals.
 // outer may be nil; for a function literal it supplies the enclosing function's roles/expansions.
 func NewCanon(info *types.Info, pkg *types.Package, recv *ast.FieldList, ftype *ast.FuncType, body *ast.BlockStmt, outer *Canon) *Canon {
-	c := &Canon{Info: info, Pkg: pkg, roles: map[types.Object]string{}, expand: map[types.Object]ast.Expr{}, tuple: map[types.Object]tupleDef{}}
+	return NewCanonAliased(info, pkg, recv, ftype, body, outer, nil)
+}
+
+// NewCanonAliased is NewCanon with a map of renamed locals: alias[o] is the name under which the rule tables know o.
+func NewCanonAliased(info *types.Info, pkg *types.Package, recv *ast.FieldList, ftype *ast.FuncType, body *ast.BlockStmt, outer *Canon, alias map[types.Object]string) *Canon {
+	c := &Canon{Info: info, Pkg: pkg, roles: map[types.Object]string{}, expand: map[types.Object]ast.Expr{}, tuple: map[types.Object]tupleDef{}, alias: alias, base: map[types.Object]string{}}
+	if outer != nil {
+		c.alias = outer.alias
+		for k, v := range outer.base {
+			c.base[k] = v
+		}
+	}
 	if outer != nil {
 		for k, v := range outer.roles {
 			c.roles[k] = v
@@ -233,7 +246,12 @@ func (c *Canon) nameLocals(body *ast.BlockStmt) {
 		}
 		if o := c.Info.Defs[id]; o != nil {
 			if _, isVar := o.(*types.Var); isVar {
-				by[id.Name] = append(by[id.Name], ent{o, id.Pos()})
+				name := id.Name
+				if a, ok := c.alias[o]; ok {
+					name = a
+				}
+				c.base[o] = name
+				by[name] = append(by[name], ent{o, id.Pos()})
 			}
 		}
 		return true
@@ -695,4 +713,112 @@ func subZero(x, y ast.Expr, isZero func(ast.Expr) bool, signed func(ast.Expr) bo
 		return b, a, true // 0 op (a-b) == b op a
 	}
 	return nil, nil, false
+}
+
+// BaseName is the name a rule uses for a local: its source name, or the name it had when the rule tables were
+// written if it was recognised as renamed. Empty for objects that are not locals of the function.
+func (c *Canon) BaseName(o types.Object) string { return c.base[o] }
+
+// LocalSig describes one local variable independently of naming state: its type and the source text of everything
+// assigned to it (its own name replaced by a placeholder), in source order.
+type LocalSig struct {
+	Obj  types.Object
+	Name string
+	Pos  token.Pos
+	Sig  string
+}
+
+// LocalSignatures lists the locals declared in body (including those of nested function literals) in declaration order.
+func LocalSignatures(info *types.Info, body *ast.BlockStmt) []LocalSig {
+	var order []types.Object
+	pos := map[types.Object]token.Pos{}
+	ast.Inspect(body, func(n ast.Node) bool {
+		if id, ok := n.(*ast.Ident); ok {
+			if o := info.Defs[id]; o != nil {
+				if _, isVar := o.(*types.Var); isVar {
+					if _, seen := pos[o]; !seen {
+						pos[o] = id.Pos()
+						order = append(order, o)
+					}
+				}
+			}
+		}
+		return true
+	})
+	defs := map[types.Object][]string{}
+	text := func(e ast.Expr) string { return types.ExprString(e) }
+	add := func(lhs ast.Expr, d string) {
+		if id, ok := ast.Unparen(lhs).(*ast.Ident); ok {
+			if o := info.ObjectOf(id); o != nil {
+				if _, known := pos[o]; known {
+					defs[o] = append(defs[o], d)
+				}
+			}
+		}
+	}
+	ast.Inspect(body, func(n ast.Node) bool {
+		switch x := n.(type) {
+		case *ast.AssignStmt:
+			if len(x.Lhs) == len(x.Rhs) {
+				for i, l := range x.Lhs {
+					add(l, x.Tok.String()+" "+text(x.Rhs[i]))
+				}
+			} else if len(x.Rhs) == 1 {
+				for i, l := range x.Lhs {
+					add(l, fmt.Sprintf("%s #%d of %s", x.Tok, i, text(x.Rhs[0])))
+				}
+			}
+		case *ast.IncDecStmt:
+			add(x.X, x.Tok.String())
+		case *ast.RangeStmt:
+			if x.Key != nil {
+				add(x.Key, "range key of "+text(x.X))
+			}
+			if x.Value != nil {
+				add(x.Value, "range value of "+text(x.X))
+			}
+		case *ast.ValueSpec:
+			for i, id := range x.Names {
+				d := "var"
+				if i < len(x.Values) {
+					d += " = " + text(x.Values[i])
+				} else if len(x.Values) == 1 && len(x.Names) > 1 {
+					d += fmt.Sprintf(" #%d of %s", i, text(x.Values[0]))
+				}
+				add(id, d)
+			}
+		case *ast.TypeSwitchStmt:
+			if as, ok := x.Assign.(*ast.AssignStmt); ok && len(as.Lhs) == 1 {
+				add(as.Lhs[0], "typeswitch "+text(as.Rhs[0]))
+			}
+		}
+		return true
+	})
+	var out []LocalSig
+	for _, o := range order {
+		var ds []string
+		for _, d := range defs[o] {
+			ds = append(ds, replaceOwnName(d, o.Name()))
+		}
+		out = append(out, LocalSig{Obj: o, Name: o.Name(), Pos: pos[o], Sig: types.TypeString(o.Type(), nil) + " | " + strings.Join(ds, " ; ")})
+	}
+	return out
+}
+
+// replaceOwnName replaces the identifier name by a placeholder, except where it is a selected field or method.
+func replaceOwnName(text, name string) string {
+	var b strings.Builder
+	isW := func(c byte) bool {
+		return c == '_' || c >= '0' && c <= '9' || c >= 'a' && c <= 'z' || c >= 'A' && c <= 'Z'
+	}
+	for i := 0; i < len(text); {
+		if strings.HasPrefix(text[i:], name) && (i == 0 || !isW(text[i-1]) && text[i-1] != '.') && (i+len(name) == len(text) || !isW(text[i+len(name)])) {
+			b.WriteString("§")
+			i += len(name)
+			continue
+		}
+		b.WriteByte(text[i])
+		i++
+	}
+	return b.String()
 }
